@@ -2,6 +2,7 @@ import Proofs.VecProtoInv
 import Proofs.VecProtoLegal
 import Proofs.VecProtoWait
 import Proofs.VecProtoPrompt
+import Proofs.VecProtoGenEq
 
 /-!
 # C13 — the vector environment rejects misuse and survives worker faults without hanging
@@ -12,8 +13,10 @@ State × Outcome` is one public call (the async/wait pairs, `set_attr`, `close`,
 wrappers `reset()` / `step()` / `call()` = `get_attr()` = `render()`); `Outcome = ok | err <error
 class> | hang`.  `fixed = true` is the code with fixes/C13-close-after-worker-death.diff applied
 (in /repo since b01184c), `fixed = false` the code before it; `fix2 = true` is the code with
-fixes/C13-close-timeout-and-interrupt.diff (close(timeout) bounds its handshake and joins),
-`fix2 = false` the current tree.  A wait's `timed` flag stands for ANY timeout value, 0 included.
+fixes/C13-close-timeout-and-interrupt.diff (close(timeout) bounds its handshake and joins; in /repo since
+cb46c45), `fix2 = false` the code before it.  /repo HEAD is `fixed = true`, `fix2 = true`: that is the variant the
+definitions generated from the source text are proved equal to (section `source_translation` at the end).
+A wait's `timed` flag stands for ANY timeout value, 0 included.
 
 Liveness, timing and OS-level process death are *assumptions* A1–A7 of the model (listed at the top
 of the model file) and are validated only by the fault-injection correspondence (harness/c13.py).
@@ -304,5 +307,229 @@ example : ((init true 3 [(1, ⟨.reset, 0, .stuck⟩)]).runOps [.resetAsync, .cl
 example : ((init true 2 [(0, ⟨.step, 0, .stuck⟩)]).runOps [.stepAsync, .stepWait false]).2 = [.ok, .hang] := by decide
 example : NoStuckScript [(0, ⟨.step, 0, .sleep⟩), (1, ⟨.reset, 2, .raise 3⟩), (1, ⟨.call, 0, .kill⟩)] := by
   unfold NoStuckScript; decide
+
+/-! ### the same theorems over the definitions generated from the source text
+
+`Gen/VecProtoGen.lean` is written by `harness/py2lean_vecproto.py` from `agilerl/vector/pz_async_vec_env.py` /
+`pz_vec_env.py` on every run: one transition function per method of `AsyncPettingZooVecEnv` over the parent object
+(`_state`, `closed`) and an explicit oracle for everything outside it (pipes, processes, error queue, clock).
+`Proofs/VecProtoGenEq.lean` proves them equal (`Agree`) to the model's transitions for `fixed = true`, `fix2 = true`
+— the variant /repo HEAD implements.  `genCall S tmo op` is the generated method the model's `Op` stands for;
+`tmo true` is the timeout a timed call is made with — ANY value (0 included), `tmo false = None`. -/
+section source_translation
+open VecProtoGen (ErrClass Res Parent Sys AsyncState)
+
+/-- the guards read off the source, for EVERY oracle (whatever pipes, workers and queue do) and every parent state:
+    a forbidden call — the synchronous wrappers included — raises exactly the documented error class and changes
+    neither the parent object nor anything outside it -/
+theorem C13_source_translation_misuse_errors {W R Q : Type} (S : Sys W R Q) (tmo : Bool → Option Rat) (s : State) (w : W)
+    (op : Op) (e : Exc) (h : misuse s op = some e) :
+    genCall S tmo op (parOf s) w = (parOf s, w, .raise (excOf e)) := by
+  have hne : ∀ a : AState, s.astate ≠ a → (stOf s.astate != stOf a) = true := by
+    intro a ha; rw [stOf_bne]; simpa using ha
+  cases op
+  case close => simp [misuse] at h
+  all_goals
+    simp only [misuse] at h
+    split at h
+    · rename_i hc
+      cases h
+      simp [genCall, VecProtoGen.reset_async, VecProtoGen.step_async, VecProtoGen.call_async, VecProtoGen.reset_wait,
+        VecProtoGen.step_wait, VecProtoGen.call_wait, VecProtoGen.set_attr, VecProtoGen.reset, VecProtoGen.step,
+        VecProtoGen.call, VecProtoGen.pyRunUnit, VecProtoGen.pyCall, assert_running_eq, parOf, hc, excOf]
+    · rename_i hc
+      split at h
+      · rename_i hd
+        cases h
+        have hc' : s.closed = false := by simpa using hc
+        first
+          | (have hb := hne .default hd
+             simp [genCall, VecProtoGen.reset_async, VecProtoGen.step_async, VecProtoGen.call_async, VecProtoGen.set_attr,
+               VecProtoGen.reset, VecProtoGen.step, VecProtoGen.call, VecProtoGen.pyRunUnit, VecProtoGen.pyCall,
+               VecProtoGen.pySeq, VecProtoGen.pyIf, VecProtoGen.pyRaise, assert_running_eq, parOf, hc', excOf, stOf] at hb ⊢
+             simp [hb])
+          | (have hb := hne .wreset hd
+             simp [genCall, VecProtoGen.reset_wait, VecProtoGen.pyRunUnit, VecProtoGen.pyCall, VecProtoGen.pySeq,
+               VecProtoGen.pyIf, VecProtoGen.pyRaise, assert_running_eq, parOf, hc', excOf, stOf] at hb ⊢
+             simp [hb])
+          | (have hb := hne .wstep hd
+             simp [genCall, VecProtoGen.step_wait, VecProtoGen.pyRunUnit, VecProtoGen.pyCall, VecProtoGen.pySeq,
+               VecProtoGen.pyIf, VecProtoGen.pyRaise, assert_running_eq, parOf, hc', excOf, stOf] at hb ⊢
+             simp [hb])
+          | (have hb := hne .wcall hd
+             simp [genCall, VecProtoGen.call_wait, VecProtoGen.pyRunUnit, VecProtoGen.pyCall, VecProtoGen.pySeq,
+               VecProtoGen.pyIf, VecProtoGen.pyRaise, assert_running_eq, parOf, hc', excOf, stOf] at hb ⊢
+             simp [hb])
+      · cases h
+
+/-- `get_attr(name)` and `render()` are `call(…)` in the source, for every oracle: what is proved of `call` holds of them -/
+theorem C13_source_translation_get_attr_render_are_call {W R Q : Type} (S : Sys W R Q) (p : Parent) (w : W) :
+    VecProtoGen.get_attr S p w = VecProtoGen.call S p w ∧ VecProtoGen.render S p w = VecProtoGen.call S p w :=
+  ⟨gen_get_attr_is_call S p w, gen_render_is_call S p w⟩
+
+/-- EVERY generated entry point, run on a configuration reachable from a fresh environment with the scripted
+    workers as the oracle, does what the model's transition does (`Agree`: same outcome and — unless the call
+    never returns — the same `_state`, `closed`, workers, pipes and error queue).  So every theorem above about
+    `State.step` of the repaired variant is a theorem about the code as it is written now. -/
+theorem C13_source_translation_step_eq (ie : Nat → Bool) (n : Nat) (script : List (Nat × FaultAt)) (ops : List Op)
+    (tmo : Bool → Option Rat) (htmo : ∀ b, (tmo b).isSome = b) (op : Op) :
+    Agree (genStep ie (reach true n script ops true).ws.length tmo op (parOf (reach true n script ops true))
+      (worldOf (reach true n script ops true))) ((reach true n script ops true).step op) := by
+  have hfl := runOps_flags ops _ (init_inv0 true true n script)
+  exact gen_step_eq _ ie hfl.1 hfl.2 (reach_wellIdx true n script ops true) tmo htmo op
+
+/-- … and after a rejected call the generated code is in the very same configuration: the pending call can be
+    completed as if the misuse had not happened (the generated counterpart of `C13_misuse_transparent`) -/
+theorem C13_source_translation_misuse_transparent (ie : Nat → Bool) (tmo : Bool → Option Rat) (s : State) (op : Op) (e : Exc)
+    (h : misuse s op = some e) (op' : Op) :
+    genStep ie s.ws.length tmo op' (genStep ie s.ws.length tmo op (parOf s) (worldOf s)).1
+      (genStep ie s.ws.length tmo op (parOf s) (worldOf s)).2.1 = genStep ie s.ws.length tmo op' (parOf s) (worldOf s) := by
+  rw [show genStep ie s.ws.length tmo op (parOf s) (worldOf s) = (parOf s, worldOf s, .raise (excOf e)) from
+    C13_source_translation_misuse_errors _ tmo s _ op e h]
+
+/-- a wait of the generated code with ANY timeout value (`some τ`) never blocks, whatever faults the script injects
+    and whatever was called before -/
+theorem C13_source_translation_timed_wait_never_blocks (ie : Nat → Bool) (n : Nat) (script : List (Nat × FaultAt))
+    (ops : List Op) (τ : Rat) :
+    let s := reach true n script ops true
+    (VecProtoGen.reset_wait (sysM s.ws.length ie) (some τ) (parOf s) (worldOf s)).2.2 ≠ .hang ∧
+    (VecProtoGen.step_wait (sysM s.ws.length ie) (some τ) (parOf s) (worldOf s)).2.2 ≠ .hang ∧
+    (VecProtoGen.call_wait (sysM s.ws.length ie) (some τ) (parOf s) (worldOf s)).2.2 ≠ .hang := by
+  intro s
+  have hfl := runOps_flags ops _ (init_inv0 true true n script)
+  have hw := reach_wellIdx true n script ops true
+  have key : ∀ (g : Parent × World × Res Unit) (a : AState), Agree g (waitOp s a true) → g.2.2 ≠ .hang := by
+    intro g a hag hh
+    have := C13_timed_wait_never_blocks true true n script ops a
+    rw [hag.1] at hh
+    cases hm : (waitOp (reach true n script ops true) a true).2 with
+    | hang => exact this hm
+    | ok => rw [show (waitOp s a true).2 = _ from hm] at hh; cases hh
+    | err x => rw [show (waitOp s a true).2 = _ from hm] at hh; cases hh
+  exact ⟨key _ .wreset (gen_reset_wait_eq s ie hfl.1 hw (some τ)), key _ .wstep (gen_step_wait_eq s ie hfl.1 hw (some τ)),
+    key _ .wcall (gen_call_wait_eq s ie hfl.1 hw (some τ))⟩
+
+/-- … and on a pipe with nothing to read (a sleeping or stuck sub-environment) the generated `step_wait(timeout=τ)`
+    raises `multiprocessing.TimeoutError`, leaves `_state = DEFAULT` and touches nothing else — for every τ, 0 included
+    (likewise `reset_wait`, `call_wait`: `gen_reset_wait_eq`, `gen_call_wait_eq`) -/
+theorem C13_source_translation_timeout_is_timeout (ie : Nat → Bool) (n : Nat) (script : List (Nat × FaultAt))
+    (ops : List Op) (τ : Rat) (hc : (reach true n script ops true).closed = false)
+    (ha : (reach true n script ops true).astate = .wstep)
+    (w : Worker) (hw : w ∈ (reach true n script ops true).ws) (hs : w.st = .hung) (hi : w.inbox = []) :
+    let s := reach true n script ops true
+    VecProtoGen.step_wait (sysM s.ws.length ie) (some τ) (parOf s) (worldOf s) =
+      (⟨AsyncState.DEFAULT, false⟩, worldOf s, .raise ErrClass.mp_TimeoutError) := by
+  intro s
+  have hfl := runOps_flags ops _ (init_inv0 true true n script)
+  have hag := gen_step_wait_eq s ie hfl.1 (reach_wellIdx true n script ops true) (some τ)
+  have hm := (C13_timeout_is_timeout s .wstep hc ha).1 w hw hs hi
+  simp only [Option.isSome_some] at hag
+  rw [hm] at hag
+  obtain ⟨h1, h2⟩ := hag
+  obtain ⟨h3, h4⟩ := h2 (by simp)
+  rcases hg : VecProtoGen.step_wait (sysM s.ws.length ie) (some τ) (parOf s) (worldOf s) with ⟨p1, w1, r1⟩
+  rw [hg] at h1 h3 h4
+  simp only at h1 h3 h4
+  subst h1 h3 h4
+  have hc' : s.closed = false := hc
+  simp [parOf, worldOf, resOf, excOf, stOf, hc']
+
+/-- repaired code as generated: once `X_async` was accepted, the generated `X_wait` — whether it returns, times out,
+    re-raises a worker's exception or meets a dead pipe — leaves `_state = DEFAULT` (unless it never returns, which
+    only an untimed wait on a stuck sub-environment does) -/
+theorem C13_source_translation_legal_returns_default (ie : Nat → Bool) (n : Nat) (script : List (Nat × FaultAt))
+    (ops : List Op) (t : Option Rat) (hc : (reach true n script ops true).closed = false)
+    (ha : (reach true n script ops true).astate = .wstep) :
+    let s := reach true n script ops true
+    (VecProtoGen.step_wait (sysM s.ws.length ie) t (parOf s) (worldOf s)).2.2 ≠ .hang →
+      (VecProtoGen.step_wait (sysM s.ws.length ie) t (parOf s) (worldOf s)).1._state = AsyncState.DEFAULT := by
+  intro s hnh
+  have hfl := runOps_flags ops _ (init_inv0 true true n script)
+  have hag := gen_step_wait_eq s ie hfl.1 (reach_wellIdx true n script ops true) t
+  have hd := C13_legal_returns_default s hfl.1 .wstep t.isSome hc ha
+  have hm : (waitOp s .wstep t.isSome).2 ≠ .hang := by
+    intro h
+    apply hnh
+    rw [hag.1, h]
+    rfl
+  rw [(hag.2 hm).1]
+  simp [parOf, hd, stOf]
+
+/-- after ANY call sequence on ANY number of workers under ANY script of raise / sleep / kill faults, the generated
+    `close(timeout, terminate)` — plain, with any timeout, or with terminate — returns normally, sets `closed`, and
+    no worker process is alive -/
+theorem C13_source_translation_close_kills_all (ie : Nat → Bool) (n : Nat) (script : List (Nat × FaultAt))
+    (hs : NoStuckScript script) (ops : List Op) (timeout : Option Rat) (terminate : Bool) :
+    let s := reach true n script ops true
+    let g := VecProtoGen.close (sysM s.ws.length ie) timeout terminate (parOf s) (worldOf s)
+    g.2.2 = .ok () ∧ g.1.closed = true ∧ ∀ w ∈ g.2.1.1, w.st = .exited := by
+  intro s g
+  have hfl := runOps_flags ops _ (init_inv0 true true n script)
+  have hag := gen_close_eq s ie hfl.1 hfl.2 (reach_wellIdx true n script ops true) timeout terminate
+  obtain ⟨m1, m2, m3⟩ := C13_close_kills_all n script hs true ops timeout.isSome terminate
+  have hm1 : (closeOp s timeout.isSome terminate).2 = .ok := m1
+  obtain ⟨h1, h2⟩ := hag
+  obtain ⟨h3, h4⟩ := h2 (by rw [hm1]; simp)
+  refine ⟨by rw [h1, hm1]; rfl, ?_, ?_⟩
+  · rw [h3]; exact m2
+  · rw [h4]; exact m3
+
+/-- EVERY fault script — sub-environments stuck for good included — and every history, with a call of any kind
+    pending or not: the generated `close(timeout=τ)` for any τ (0 included) and `close(terminate=True)` return normally,
+    set `closed` and leave no worker alive; so does garbage collection of an unclosed environment (`__del__`) -/
+theorem C13_source_translation_timed_close_prompt (ie : Nat → Bool) (n : Nat) (script : List (Nat × FaultAt))
+    (ops : List Op) (timeout : Option Rat) (terminate : Bool) (h : timeout.isSome = true ∨ terminate = true) :
+    let s := reach true n script ops true
+    let g := VecProtoGen.close (sysM s.ws.length ie) timeout terminate (parOf s) (worldOf s)
+    let d := VecProtoGen.dunder_del (sysM s.ws.length ie) (parOf s) (worldOf s)
+    (g.2.2 = .ok () ∧ g.1.closed = true ∧ ∀ w ∈ g.2.1.1, w.st = .exited) ∧
+    (d.2.2 = .ok () ∧ d.1.closed = true ∧ ∀ w ∈ d.2.1.1, w.st = .exited) := by
+  intro s g d
+  have hfl := runOps_flags ops _ (init_inv0 true true n script)
+  have hw := reach_wellIdx true n script ops true
+  constructor
+  · have hag := gen_close_eq s ie hfl.1 hfl.2 hw timeout terminate
+    obtain ⟨m1, m2, m3⟩ := C13_timed_close_prompt n script ops timeout.isSome terminate h
+    have hm1 : (closeOp s timeout.isSome terminate).2 = .ok := m1
+    obtain ⟨h1, h2⟩ := hag
+    obtain ⟨h3, h4⟩ := h2 (by rw [hm1]; simp)
+    refine ⟨by rw [h1, hm1]; rfl, ?_, ?_⟩
+    · rw [h3]; exact m2
+    · rw [h4]; exact m3
+  · have hag := gen_del_eq s ie hfl.1 hfl.2 hw
+    obtain ⟨m1, m2, m3⟩ := C13_timed_close_prompt n script ops false true (Or.inr rfl)
+    have hm1 : (closeOp s false true).2 = .ok := m1
+    obtain ⟨h1, h2⟩ := hag
+    obtain ⟨h3, h4⟩ := h2 (by rw [hm1]; simp)
+    refine ⟨by rw [h1, hm1]; rfl, ?_, ?_⟩
+    · rw [h3]; exact m2
+    · rw [h4]; exact m3
+
+/-- no generated entry point ever blocks forever under raise / sleep / kill faults -/
+theorem C13_source_translation_never_hangs (ie : Nat → Bool) (n : Nat) (script : List (Nat × FaultAt))
+    (hs : NoStuckScript script) (ops : List Op) (tmo : Bool → Option Rat) (htmo : ∀ b, (tmo b).isSome = b) (op : Op) :
+    let s := reach true n script ops true
+    (genStep ie s.ws.length tmo op (parOf s) (worldOf s)).2.2 ≠ .hang := by
+  intro s hh
+  have hag := C13_source_translation_step_eq ie n script ops tmo htmo op
+  have hnh := C13_never_hangs n script hs true (ops ++ [op])
+  have hi := runOps_inv ops _ (init_inv n script hs true)
+  have hstep := (step_inv s op hi.1).2
+  rw [hag.1] at hh
+  cases hm : (s.step op).2 with
+  | hang => exact hstep hm
+  | ok => rw [hm] at hh; cases hh
+  | err x => rw [hm] at hh; cases hh
+
+/-! non-vacuity of the source-translation theorems: the invariant and the flags hold of reachable configurations,
+    and the generated code can be run on them -/
+example : WellIdx (reach true 3 [(1, ⟨.step, 1, .raise 7⟩)] [.stepAsync, .stepWait false]).ws := reach_wellIdx _ _ _ _ _
+example : (VecProtoGen.step_wait (sysM 2 (fun _ => true)) none (parOf (init true 2 [])) (worldOf (init true 2 []))).2.2 =
+    .raise ErrClass.NoAsyncCallError := by decide
+example : (VecProtoGen.call (sysM 2 (fun _ => true)) (parOf (reach true 2 [] [.resetAsync]))
+    (worldOf (reach true 2 [] [.resetAsync]))).2.2 = .raise ErrClass.AlreadyPendingCallError := by decide
+example : VecProtoGen.Parent.init = parOf (init true 2 []) := rfl
+
+end source_translation
 
 end VecProto
